@@ -244,13 +244,12 @@ Definition parent_ok (i : ainput) (p0 : parent) (refs_a : list ref) (us : list u
    current at the next parent is deleted: those committed strictly earlier than the next parent;
    all later versions for the last parent version.  (With known commit times the code does not
    subtract the threshold: timeThresholdParent ignores its offset then.) *)
-Definition expected_updates_commit (i : ainput) (np : option parent) (cl : list child) (s : child)
+Definition expected_commit_from (i : ainput) (np : option parent) (cl after : list child)
   : list child :=
   let cis := i_cis i in
   (* the bound of the next parent: its commit time; (its timestamp less the threshold when the
      commit time is unknown — not used here, this oracle is applied in the commit regime only) *)
   let nbound := fun n => time_threshold_parent cis n (- o_threshold (i_opts i)) in
-  let after := filter (fun c => Nat.ltb (c_vidx s) (c_vidx c)) cl in
   filter c_visible
     match np with
     | None => after
@@ -266,14 +265,23 @@ Definition expected_updates_commit (i : ainput) (np : option parent) (cl : list 
         end
     end.
 
+Definition expected_updates_commit (i : ainput) (np : option parent) (cl : list child) (s : child)
+  : list child :=
+  expected_commit_from i np cl (filter (fun c => Nat.ltb (c_vidx s) (c_vidx c)) cl).
+
+(* no version selected for the reference (inconsistency ignored, the reference stays as it was): the
+   updates are still exactly "the later child versions" — every version stamped at or after the
+   parent version, up to the same bound of the next parent version *)
+Definition not_before_parent (i : ainput) (p0 : parent) (cl : list child) : list child :=
+  filter (fun c => pstamp (i_cis i) p0 <=? stamp (i_cis i) c) cl.
+
 (* updates_exact in the timestamp regime (theorem C11_updates_exact_generic with the declarative
    selection of theorem 14 for the next parent version): later versions up to (excluding) the
    version selected for the next parent version, that one included iff stamped before
    (next parent's timestamp - threshold); nothing selected there: those stamped before that bound *)
-Definition expected_updates_ts (i : ainput) (np : option parent) (cl : list child) (s : child) : list child :=
+Definition expected_ts_from (i : ainput) (np : option parent) (cl after : list child) : list child :=
   let cis := i_cis i in
   let eps := o_threshold (i_opts i) in
-  let after := filter (fun c => Nat.ltb (c_vidx s) (c_vidx c)) cl in
   filter c_visible
     match np with
     | None => after
@@ -285,6 +293,9 @@ Definition expected_updates_ts (i : ainput) (np : option parent) (cl : list chil
         | None => filter (fun c => stamp cis c <? bound) after
         end
     end.
+
+Definition expected_updates_ts (i : ainput) (np : option parent) (cl : list child) (s : child) : list child :=
+  expected_ts_from i np cl (filter (fun c => Nat.ltb (c_vidx s) (c_vidx c)) cl).
 
 Definition ts_regime_pair (i : ainput) (p0 : parent) (np : option parent) (cl : list child) : bool :=
   let cis := i_cis i in
@@ -304,6 +315,12 @@ Definition updates_exact_ref (i : ainput) (p0 : parent) (np : option parent) (us
         if commit_regime_ref i p0 cl
            && match np with Some n => commit_parent (i_cis i) n && (pstamp (i_cis i) p0 <=? pstamp (i_cis i) n) | None => true end
         then
+          if match current_at (i_cis i) cl (pstamp (i_cis i) p0) with Some c => negb (c_visible c) | None => true end
+          then
+            negb (ref_eqb ra r0) ||
+            list_eqb Z.eqb (map c_version (expected_commit_from i np cl (not_before_parent i p0 cl)))
+                           (map u_version (filter (fun u => Nat.eqb (u_index u) j) us))
+          else
           match find_version cl (r_version ra) with
           | Some s =>
               if carries ra s then
@@ -313,6 +330,13 @@ Definition updates_exact_ref (i : ainput) (p0 : parent) (np : option parent) (us
           | None => true
           end
         else if ts_regime_pair i p0 np cl then
+          if match spec_select (i_cis i) (p_changeset p0) (pstamp (i_cis i) p0) (o_threshold (i_opts i)) cl with
+             | Some _ => false | None => true end
+          then
+            negb (ref_eqb ra r0) ||
+            list_eqb Z.eqb (map c_version (expected_ts_from i np cl (not_before_parent i p0 cl)))
+                           (map u_version (filter (fun u => Nat.eqb (u_index u) j) us))
+          else
           match find_version cl (r_version ra) with
           | Some s =>
               if carries ra s then
